@@ -69,6 +69,17 @@ def decode (h : String) : Option (Except Unit (Nat × Nat) × List Char) :=
     | .ok (c, r) => if c < 1 ∨ r < 1 then some (.error (), u) else some (.ok (c.toNat, r.toNat), u)
     | .error _ => some (.error (), u)
 
+/-- `rangeRefToCoordinates(topLeft + ":" + bottomRight)` as MergeCell / UnmergeCell decode their
+two arguments: `$` stripped, split at ':', the first two parts are used (so "A1:B2","C3" is A1:B2) -/
+def decodeRange (h1 h2 : String) : Option (Except Unit (Nat × Nat × Nat × Nat)) :=
+  match unhexS h1, unhexS h2 with
+  | some a, some b =>
+    match Ref.rangeRefToCoordinates (a ++ [':'] ++ b) with
+    | .ok (c1, r1, c2, r2) =>
+      if c1 < 1 ∨ r1 < 1 ∨ c2 < 1 ∨ r2 < 1 then some (.error ()) else some (.ok (c1.toNat, r1.toNat, c2.toNat, r2.toNat))
+    | .error _ => some (.error ())
+  | _, _ => none
+
 def parsePayload (kind a b : String) : Option Payload :=
   match kind with
   | "tv" => some (.tv (tok a) (tok b))
@@ -109,9 +120,10 @@ def out (st : St) (r : Res) : St × String := (st, resTag st.impl.sst r ++ " | "
 reference *as text*: a spelling that is not canonical finds nothing unless it was
 redirected to an anchor (C20 `finding_getter_string_lookup`). -/
 def getOp (st : St) (c r : Nat) (u : List Char) : String :=
-  let a := anchor st.impl.merges c r
+  let redirected := st.impl.merges.any fun m => m.rect.contains c r
   let canon := nameOf c r
-  if a = (c, r) ∧ String.ofList u ≠ canon then "none" else resTag st.impl.sst (getCell st.impl c r)
+  -- a position inside any merged range (the anchor itself included) is replaced by the anchor's canonical name
+  if !redirected ∧ String.ofList u ≠ canon then "none" else resTag st.impl.sst (getCell st.impl c r)
 
 def seqOps (dir : String) (c r : Nat) : Nat → List String → Option (List Op)
   | _, [] => some []
@@ -199,15 +211,15 @@ def stepLine (st : St) (w : List String) : St × String :=
     | some (.error _, _) => (st, "E_REF")
     | none => (st, "bad-op")
   | ["mrg", h1, h2] =>
-    match decode h1, decode h2 with
-    | some (.ok (c1, r1), _), some (.ok (c2, r2), _) => let (st', res) := apply st (.merge c1 r1 c2 r2); out st' res
-    | some _, some _ => out st .err
-    | _, _ => (st, "bad-op")
+    match decodeRange h1 h2 with
+    | some (.ok (c1, r1, c2, r2)) => let (st', res) := apply st (.merge c1 r1 c2 r2); out st' res
+    | some (.error _) => out st .err
+    | none => (st, "bad-op")
   | ["unm", h1, h2] =>
-    match decode h1, decode h2 with
-    | some (.ok (c1, r1), _), some (.ok (c2, r2), _) => let (st', res) := apply st (.unmerge c1 r1 c2 r2); out st' res
-    | some _, some _ => out st .err
-    | _, _ => (st, "bad-op")
+    match decodeRange h1 h2 with
+    | some (.ok (c1, r1, c2, r2)) => let (st', res) := apply st (.unmerge c1 r1 c2 r2); out st' res
+    | some (.error _) => out st .err
+    | none => (st, "bad-op")
   | ["gm"] => let (st', res) := apply st .getMerges; out st' res
   | "seq" :: dir :: h :: n :: rest =>
     match decode h, n.toNat? with
